@@ -488,10 +488,15 @@ Exp_arith(fs, a) ==
 \* expression e : [t |-> "var", k] | [t |-> "int", v] | [t |-> "bin", op, l, r]
 \*              | [t |-> "where", c, x, y]   (all variables of one common shape)
 \*              | [t |-> "asarr", e]         (the plain-array view: same values)
+DimsSuffix(s, t) == Len(s) <= Len(t) /\ s = SubSeq(t, Len(t) - Len(s) + 1, Len(t))
 RECURSIVE EvalExpr(_, _, _)
 \* value of e at cell k : [m |-> masked?, v |-> rational]
 EvalExpr(f, e, k) ==
-  CASE e.t = "var" -> LET v == VarRec(f, e.k) IN [m |-> v.mask[k], v |-> v.vals[k]]
+  \* (operands broadcast: a variable whose dimensions are the trailing ones of
+  \* the result's repeats along the leading axes - row-major cell k of the
+  \* result is cell ((k - 1) mod size) + 1 of the variable)
+  CASE e.t = "var" -> LET v == VarRec(f, e.k) kk == ((k - 1) % Len(v.vals)) + 1
+                      IN [m |-> v.mask[kk], v |-> v.vals[kk]]
     [] e.t = "int" -> [m |-> FALSE, v |-> RInt(e.v)]
     [] e.t = "asarr" -> EvalExpr(f, e.e, k)
     [] e.t = "bin" -> LET x == EvalExpr(f, e.l, k) y == EvalExpr(f, e.r, k)
@@ -527,10 +532,13 @@ Dom_eval(f, a) ==
        LET e == a.assign[i].e IN
        /\ ExprVars(e) # {} /\ ExprTotal(e)
        /\ \A k \in ExprVars(e) : HasVar(f, k) /\ VarRec(f, k).enc = "num" /\ VarRec(f, k).dt \in NumTypes
-       /\ \A k1, k2 \in ExprVars(e) : VarRec(f, k1).dims = VarRec(f, k2).dims
+       \* one variable gives the dimensions of the result; those of every other
+       \* one are its trailing dimensions (numpy broadcasting of named axes)
+       /\ \E top \in ExprVars(e) : \A k \in ExprVars(e) : DimsSuffix(VarRec(f, k).dims, VarRec(f, top).dims)
        /\ ~HasDim(f, a.assign[i].name) /\ ~HasVar(f, a.assign[i].name)
 EvalVar(f, as) ==
-  LET tmpl == VarRec(f, CHOOSE k \in ExprVars(as.e) : TRUE)
+  LET tmpl == VarRec(f, CHOOSE top \in ExprVars(as.e) :
+                           \A k \in ExprVars(as.e) : DimsSuffix(VarRec(f, k).dims, VarRec(f, top).dims))
       c == [k \in 1..Len(tmpl.vals) |-> EvalExpr(f, as.e, k)]
   IN [tmpl EXCEPT !.name = as.name,
                   !.vals = [k \in 1..Len(c) |-> c[k].v],
